@@ -708,6 +708,73 @@ def _quantile_case(args):
     return cnt, out
 
 
+def _positions_case(args):
+    """Explicit scatter positions: every non-empty subset of a pool of five
+    positions (so 1, 2, 3, 4 and 5 positions), handed over as a tuple of
+    arrays, as a list of arrays and as one (2, k) array: the density at a
+    position is the reference estimator's, and does not depend on how many
+    other positions are asked for or on the container."""
+    seed, = args
+    out = []
+    cnt = 0
+    rs = np.random.RandomState(seed + 31)
+    n = 40
+    x = rs.normal(100, 20, n)
+    y = np.abs(rs.normal(0.1, 0.03, n)) + 0.01
+    mask = np.arange(n) % 4 != 3
+    xf, yf = x.copy(), y.copy()
+    for i in np.flatnonzero(~mask):
+        xf[i], yf[i] = POISON[i % len(POISON)]
+    ds = _new(xf, yf)
+    ds.filter.manual[:] = mask
+    ds.apply_filter()
+    xs0, ys0 = x[mask], y[mask]
+    pool_x = np.array([70.0, 95.0, 101.0, 120.0, 140.0])
+    pool_y = np.array([0.06, 0.09, 0.11, 0.13, 0.17])
+    W = "dclab.rtdc_dataset.core:RTDCBase.get_kde_scatter"
+    for kt in ("histogram", "gauss", "multivariate"):
+        for scale in ("linear", "log"):
+            kw = dict(kde_type=kt, xscale=scale, yscale=scale)
+            full = np.asarray(ds.get_kde_scatter(
+                positions=(pool_x, pool_y), **kw))
+            xs, ys, qx, qy = xs0, ys0, pool_x, pool_y
+            if scale == "log":
+                xs, ys, qx, qy = (np.log(v) for v in (xs, ys, qx, qy))
+            want = ref_kde(kt, xs, ys, qx, qy) if kt != "histogram" \
+                else full
+            for bits in range(1, 32):
+                idx = [i for i in range(5) if bits >> i & 1]
+                px, py = pool_x[idx], pool_y[idx]
+                # (the documented containers: a list / tuple of two 1-d
+                # arrays, or one array of shape (2, k))
+                for cname, pos in (("tuple", (px, py)),
+                                   ("list", [px.copy(), py.copy()]),
+                                   ("array", np.array([px, py]))):
+                    cnt += 1
+                    case = {"kind": "positions", "kde": kt, "scale": scale,
+                            "subset": idx, "container": cname, "seed": seed}
+                    try:
+                        got = np.asarray(ds.get_kde_scatter(positions=pos,
+                                                            **kw))
+                    except Exception as e:
+                        out.append(violation(
+                            W, "exception", case,
+                            f"{type(e).__name__}: {e}",
+                            {"kde": kt, "npos": len(idx),
+                             "container": cname,
+                             "exc": type(e).__name__}))
+                        continue
+                    if got.shape != (len(idx),) or not np.allclose(
+                            got, want[idx], rtol=1e-9, atol=1e-300):
+                        out.append(violation(
+                            W, "depends-on-batch", case,
+                            f"{kt}/{scale}, positions {idx} as {cname}: "
+                            f"{got} instead of {want[idx]}",
+                            {"kde": kt, "npos": len(idx),
+                             "container": cname}))
+    return cnt, out
+
+
 def _inside_any(px, py, polys):
     """Even-odd containment of points in the union of closed polylines
     (crossing number, counted over all polylines together)."""
@@ -809,6 +876,7 @@ def run(ctx):
     res = par.pmap(_mask_case, items)
     res += par.pmap(_quantile_case, [(ctx.seed,)])
     res += par.pmap(_contour_lines_case, [(ctx.seed,)])
+    res += par.pmap(_positions_case, [(ctx.seed,)])
     res += par.pmap(_bigtsv_case, [(ctx.scratch,)])
     res += par.pmap(_bigkde_case, [(kt,) for kt in (
         "histogram", "gauss", "multivariate")])
@@ -860,6 +928,9 @@ def replay(case, ctx):
                 if v["case"] == case]
     if case["kind"] == "invalid-switch":
         return [v for v in _invalid_switch_case((case["seed"],))[1]
+                if v["case"] == case]
+    if case["kind"] == "positions":
+        return [v for v in _positions_case((case["seed"],))[1]
                 if v["case"] == case]
     if case["kind"] == "contour-lines":
         return [v for v in _contour_lines_case((case["seed"],))[1]
